@@ -299,8 +299,11 @@ for _k, _v in parse_checks.SPECS.items():
 SPECS["C10"].update(
     claim="Theorems ref_parse_sound_complete / ref_parse_errors_typed / sem_accepts_iff / sem_graph_spec / lex_text_print: the executable reference reader accepts exactly the "
           "inductive transcription `Sentence` of the published EBNF (tables regenerated from tucan.g4 and tucan.ebnf, proved identical) plus the three semantic conditions, and returns the denoted graph. "
-          "The ANTLR-generated recogniser is NOT modelled: the implementation is tied to the reference by K8 (differential: sentences, all single-token mutants of samples, raw-character mutants) only.",
-    note=NOTE_MODEL + " For C10 the theorem is about the reference reader; the implementation inherits it only as far as K8 samples (ANTLR ATN interpreter is outside the model).",
+          "The ANTLR-generated recogniser tucanParser.py is TRANSLATED on every run (harness/gen_antlr.py, fail-closed, all 136 rule methods -> gen/Antlr.v) and "
+          "antlr_accepts_iff_parse / antlr_recognise_iff_sentence_string prove that the translated LL(1) program accepts exactly the token lists parse_tokens accepts, i.e. exactly the "
+          "spellings of `Sentence`s (side conditions on the generated tables by vm_compute: antlr_rules_shape, antlr_token_types_ok, ...). Assumed, tested by K12: the ANTLR runtime "
+          "(match / LA / sync with raising listeners) and the serialized lexer ATN; the hand-written listener is tied by K8.",
+    note=NOTE_MODEL + " For C10: translator harness/gen_antlr.py (Python ast -> statement language of Model/AntlrItem.v); ANTLR runtime and lexer ATN are outside the model (K12, K8).",
     design_ref="DESIGN.md 4.10", replay=parse_checks.replay)
 SPECS["C11"].update(replay=parse_checks.replay)
 
